@@ -35,7 +35,8 @@ RULE = ('full product of single requests {str (ascii / non-ascii / >64 KiB), byt
 ASSUMPTIONS = [
     'requests are delivered in one read each (segmentation is C13); the next request is injected only after the previous response settled (no pipelining)',
     'the harness plays an honest client: it abandons the connection (disconnect + fresh socket) when the response announced close, the server closed, or the response did not decode',
-    'write events carry whole bodies (no kernel socket buffer): ">64 KiB" exercises the framing decisions, not TCPServer buffering (C11)',
+    'write events carry whole bodies (no kernel socket buffer): ">64 KiB" exercises the framing decisions, not TCPServer buffering (C11); '
+    'a sample of the failure-free cases is replayed against a real TCPServer over 127.0.0.1 (stepped, no thread) and must carry the same bytes and closes',
     'response.stream = True with an EMPTY sized body and no stream events is an application that never finishes its response; it is not generated',
     'pushed stream events (the application fires stream(response, data) itself) are only combined with body-bearing statuses, GET/POST and non-empty chunks: '
     'an application that pushes body data for a HEAD/204/304 response is taken to be at fault itself; 1xx is exercised with status 101 in the corpus only',
@@ -46,10 +47,10 @@ REQUIRED = ['framing_length', 'framing_chunked', 'framing_close', 'framing_none_
             'stream_events', 'body_gt_64k', 'nonascii_str_body', 'generator_empty_item', 'file_body_bytesio', 'file_body_real',
             'keepalive_further_request', 'keepalive_http10', 'close_announced_and_closed', 'kept_open_unannounced',
             'reconnect_after_close', 'head_requests', 'post_requests', 'error_page_response', 'app_content_length',
-            'both_decoders_compared', 'ref_selfcheck_vectors', 'sequence_len_ge_3']
+            'both_decoders_compared', 'ref_selfcheck_vectors', 'sequence_len_ge_3', 'loopback_crosschecked']
 REQUIRED_OBLIGATIONS = ['WELL_FORMED', 'HTTPCLIENT_DECODES', 'DECODERS_AGREE', 'SELF_DELIMITING', 'NO_BODY', 'STATUS_EXACT',
                         'HEADERS_EXACT', 'BODY_EXACT', 'FRAMING_LEGAL', 'CLOSE_IFF_ANNOUNCED', 'CLOSE_WISH',
-                        'NOTHING_AFTER_CLOSE', 'KEEPALIVE_NEXT', 'ONE_RESPONSE']
+                        'NOTHING_AFTER_CLOSE', 'KEEPALIVE_NEXT', 'ONE_RESPONSE', 'LOOPBACK_AGREES']
 WORKER_TIMEOUT = {'quick': 300, 'thorough': 1500}
 
 STATUSES = [200, 201, 204, 304, 404, 500]
@@ -309,19 +310,24 @@ class World:
         self.case = case
         self.pushed = {}
         self.request_level = {}
-        dct = {'channel': '/'}
-        for idx, r in enumerate(case['reqs']):
-            dct['r%d' % idx] = make_handler(self, case, idx, r)
-        App = type(H['Controller'])('C15App', (H['Controller'],), dct)
         self.w = w = H['Wire']()
         self.http = H['HTTP'](w).register(w)
         H['Dispatcher']().register(w)
         self.probe = H['Probe']().register(w)
-        App().register(w)
-        if self.request_level:
-            H['RequestLevel'](self.request_level).register(w)
+        self.register_app(w)
         w.settle()
         w.take()
+
+    def register_app(self, root):
+        """generate the Controller class of this case (one exposed method per request) and register it"""
+        H = harness()
+        dct = {'channel': '/'}
+        for idx, r in enumerate(self.case['reqs']):
+            dct['r%d' % idx] = make_handler(self, self.case, idx, r)
+        App = type(H['Controller'])('C15App', (H['Controller'],), dct)
+        App().register(root)
+        if self.request_level:
+            H['RequestLevel'](self.request_level).register(root)
 
     def _settle(self):
         try:
@@ -590,6 +596,117 @@ def run_case(case):
 
 
 # ------------------------------------------------------------------------------------------------
+# loopback cross-check (DESIGN.md 2.5/2.6): the injection harness and real sockets must agree
+# ------------------------------------------------------------------------------------------------
+_DATE = re.compile(rb'(?im)^Date:[^\r\n]*\r\n')
+
+
+class LoopWorld(World):
+    """The same generated application behind a real ``TCPServer`` on 127.0.0.1 (Select poller), stepped
+    with ``tick(0)`` from this thread; the peer is a raw non-blocking socket owned by the harness."""
+
+    def __init__(self, case):
+        H = harness()
+        from circuits import Manager
+        from circuits.net.sockets import TCPServer
+        World.serial += 1
+        self.serial = World.serial
+        self.case = case
+        self.pushed = {}
+        self.request_level = {}
+        self.root = root = Manager()
+        self.server = TCPServer(('127.0.0.1', 0), channel='web').register(root)
+        H['HTTP'](self.server).register(root)
+        H['Dispatcher']().register(root)
+        self.register_app(root)
+        from vlib.driver import mark_running
+        mark_running(root)
+        for _ in range(10):
+            root.tick(0)
+
+    def run(self, cap=600):
+        """-> [(bytes received, server closed, complete)] per request"""
+        import select
+        import socket
+        from vlib import ref_http15 as ref
+        H = harness()
+        root = self.root
+        out = []
+        cli = None
+        try:
+            for idx, r in enumerate(self.case['reqs']):
+                if cli is None:
+                    cli = socket.create_connection(('127.0.0.1', self.server.port))
+                    cli.setblocking(False)
+                cli.sendall(request_bytes(idx, r))
+                acc, eof, p, extra, pushed = b'', False, None, 0, False
+                for n in range(cap):
+                    root.tick(0)
+                    if idx in self.pushed and not pushed and not len(root):
+                        pushed = True
+                        res = self.pushed.pop(idx)
+                        for it in list(r['body']['items']) + [None]:
+                            root.fire(H['stream'](res, None if it is None else mat(it)), 'web')
+                    # no sleep while things move; a short select once the exchange idles (never decides a verdict)
+                    if select.select([cli], [], [], 0 if n < 50 else 0.02)[0]:
+                        try:
+                            d = cli.recv(1 << 20)
+                        except BlockingIOError:
+                            d = None
+                        if d == b'':
+                            eof = True
+                        elif d:
+                            acc += d
+                            extra = 0
+                    try:
+                        p = ref.parse_response(acc, r['method'])
+                    except ref.ParseError:
+                        p = None
+                    if eof:
+                        break
+                    if p is not None and not p['announces_close']:
+                        extra += 1          # complete and persistent: a few more ticks to see a stray close / bytes
+                        if extra > 4:
+                            break
+                out.append((acc, eof, p is not None))
+                if eof or p is None or p['announces_close']:
+                    cli.close()
+                    cli = None
+                    for _ in range(6):
+                        root.tick(0)
+        finally:
+            if cli is not None:
+                cli.close()
+            from vlib.driver import mark_running
+            mark_running(root, False)
+            try:
+                self.server._sock.close()
+            except Exception:
+                pass
+        return out
+
+
+def loopback_crosscheck(b, case, res):
+    """``res`` is the (failure free) injection run of ``case``: the same case over real sockets must carry
+    the same bytes (Date normalised) and end the connection at the same points."""
+    try:
+        lb = LoopWorld(case).run()
+    except OSError as e:
+        b.inconclusive_because('loopback unusable: %r' % (e,))
+        return
+    for (acc, eof, complete), o in zip(lb, res['obs']):
+        raw = b''.join(d for k, d in o['events'] if k == 'write')
+        closed = any(k == 'close' for k, _ in o['events'])
+        if _DATE.sub(b'', raw) == _DATE.sub(b'', acc) and closed == eof and complete:
+            b.ok('LOOPBACK_AGREES')
+            b.reached('loopback_crosschecked')
+        else:
+            b.fail(case, 'LOOPBACK_AGREES', {'request': o['idx'], 'inject_bytes': len(raw), 'loopback_bytes': len(acc),
+                                             'inject_closed': closed, 'loopback_eof': eof, 'loopback_complete': complete,
+                                             'inject_head': raw[:120], 'loopback_head': acc[:120]}, dedup='loopback')
+
+
+# ------------------------------------------------------------------------------------------------
 # known findings: structural triggers, their neutralisation (the twin) and signatures
 # ------------------------------------------------------------------------------------------------
 def triggers(r):
@@ -737,7 +854,7 @@ def explain(b, case, res):
     return not res['failures']
 
 
-def evaluate(b, case):
+def evaluate(b, case, loopback=False):
     try:
         res = run_case(case)
     except Exception as e:
@@ -754,6 +871,8 @@ def evaluate(b, case):
         b.reached('cases_with_known_trigger')
     if res['failures']:
         explain(b, case, res)
+    elif loopback:
+        loopback_crosscheck(b, case, res)
 
 
 # ------------------------------------------------------------------------------------------------
@@ -992,18 +1111,18 @@ def run_batch(spec):
             else:
                 b.reached('ref_selfcheck_vectors', len(ref.selfcheck_vectors()))
             for case in corpus():
-                evaluate(b, case)
+                evaluate(b, case, loopback=True)
         elif spec['kind'] == 'product':
             cases = product_cases()
-            for k in range(spec['part'], len(cases), spec['parts']):
-                evaluate(b, cases[k])
+            for n, k in enumerate(range(spec['part'], len(cases), spec['parts'])):
+                evaluate(b, cases[k], loopback=(n % 23 == 0))
         elif spec['kind'] == 'exhaustive':
             for case in exhaustive_sequences(spec['part'], spec['parts']):
                 evaluate(b, case)
         else:
             rng = random.Random(spec['seed'])
-            for _ in range(spec['n']):
-                evaluate(b, gen_sequence(rng))
+            for n in range(spec['n']):
+                evaluate(b, gen_sequence(rng), loopback=(n % 10 == 0))
     finally:
         cleanup_tmp()
     return b.result()
